@@ -165,6 +165,10 @@ def shape_case(rng, case):
         case["partial"] = 0
     elif r < 0.18:
         case["v"] = [0] * len(case["v"])
+    if rng.random() < 0.12 and not case.get("short_reads") and not case.get("hop") and case.get("v"):
+        # (not with overlapping windows: the pinned overlapping reader concatenates its cache with `+`, which bytes-like views
+        #  do not support - a limitation outside the statements, which speak of bytes)
+        case["buffer_type"] = rng.choice(("bytearray", "memoryview"))
     kinds = list(case["observers"])
     if rng.random() < 0.6 and "joiner" not in kinds:
         kinds.append("joiner")
@@ -210,6 +214,8 @@ def one(ctx, case, tmpdir):
     ctx.maxi("queue_depth", s.max_queue_depth)
     if case.get("short_reads"):
         ctx.count("runs_with_short_reads")
+    if case.get("buffer_type"):
+        ctx.count("runs_whose_blocks_are_not_bytes_objects")
     if not data:
         ctx.count("runs_on_empty_stream")
     elif not expected:
@@ -637,7 +643,7 @@ def inconclusive(merged, tier):
     c = merged["counters"]
     need = ["scheduled_runs", "saver_runs", "blocks_checked", "joiner_files_checked", "joiner_files_with_zero_events",
             "region_dirs_checked", "region_files_checked", "runs_on_empty_stream", "runs_on_event_free_stream", "runs_with_a_stop", "runs_with_short_reads",
-            "big_audio_runs", "programs_whose_main_thread_returned_after_start_all", "runs_with_files_of_an_earlier_run_in_the_way", "runs_with_blocks_that_look_like_internal_messages", "saver_runs_over_an_overlapping_reader", "line_mode_runs", "instruction_mode_runs", "all_module_line_mode_runs", "timeouts_fired", "systematic_schedules", "systematic_pipelines_fully_enumerated", "stress_runs", "stress_files_checked", "huge_backlog_runs", "raw_export_runs", "unencodable_export_runs", "two_pipeline_runs", "timeout_marathon_runs"]
+            "big_audio_runs", "runs_whose_blocks_are_not_bytes_objects", "programs_whose_main_thread_returned_after_start_all", "runs_with_files_of_an_earlier_run_in_the_way", "runs_with_blocks_that_look_like_internal_messages", "saver_runs_over_an_overlapping_reader", "line_mode_runs", "instruction_mode_runs", "all_module_line_mode_runs", "timeouts_fired", "systematic_schedules", "systematic_pipelines_fully_enumerated", "stress_runs", "stress_files_checked", "huge_backlog_runs", "raw_export_runs", "unencodable_export_runs", "two_pipeline_runs", "timeout_marathon_runs"]
     out = [f"monitor never observed {k}" for k in need if c.get(k, 0) == 0]
     if max(c.get("max:queue_depth", 0), c.get("max:blocks_read_while_the_writer_did_not_run", 0)) < 16384:
         out.append("the writer never lagged by more than 16384 blocks")
